@@ -71,6 +71,10 @@ pub struct Subject {
     pub archive: Vec<u8>,
     pub names: Vec<String>,
     pub data: Vec<Vec<u8>>,
+    /// index of a file whose data sits in a chunk that was damaged after writing (encrypt-only subject): operations
+    /// on it may fail (they must never return wrong bytes); the other files must read as on a fresh reader whatever
+    /// failed before
+    pub damaged: Option<usize>,
 }
 
 pub fn run_history(s: &Subject, hist: &[H], rep: &mut Report) -> Option<(Value, String)> {
@@ -97,6 +101,21 @@ pub fn run_history(s: &Subject, hist: &[H], rep: &mut Report) -> Option<(Value, 
                     want.sort();
                     if l != want {
                         return Some((json!({"kind": "listing_differs", "layers": lt}), format!("step {i}: list_files gives {l:?}")));
+                    }
+                    i += 1;
+                }
+                H::Hash(f) if s.damaged == Some(f) => {
+                    let _ = rd.get_hash(&s.names[f]);
+                    i += 1;
+                }
+                H::Linear if s.damaged.is_some() => {
+                    // whole-archive extraction meets the damaged chunk: it may fail, what it delivers must be original bytes
+                    let mut sinks: std::collections::HashMap<&String, Vec<u8>> = s.names.iter().map(|n| (n, Vec::new())).collect();
+                    let _ = mla::helpers::linear_extract(&mut rd, &mut sinks);
+                    for (f, n) in s.names.iter().enumerate() {
+                        if sinks[n].len() > s.data[f].len() || sinks[n][..] != s.data[f][..sinks[n].len()] {
+                            return Some((json!({"kind": "linear_extract_delivers_wrong_bytes", "layers": lt}), format!("step {i}: bytes delivered to {n} are not a prefix of the original")));
+                        }
                     }
                     i += 1;
                 }
@@ -136,6 +155,13 @@ pub fn run_history(s: &Subject, hist: &[H], rep: &mut Report) -> Option<(Value, 
                     let want = &s.data[f];
                     let mut file = match rd.get_file(s.names[f].clone()) {
                         Ok(Some(x)) => x,
+                        _ if s.damaged == Some(f) => {
+                            i += 1;
+                            while i < hist.len() && matches!(hist[i], H::Read(_)) {
+                                i += 1;
+                            }
+                            continue;
+                        }
                         other => {
                             return Some((json!({"kind": "get_file_failed_after_history", "layers": lt}), format!("step {i}: get_file({}) = {:?}", s.names[f], other.map(|o| o.map(|_| "file")))));
                         }
@@ -157,11 +183,12 @@ pub fn run_history(s: &Subject, hist: &[H], rep: &mut Report) -> Option<(Value, 
                                         format!("step {i}: read({k}) of {} at offset {pos} returned {n} bytes that differ from the file read alone", s.names[f]),
                                     ));
                                 }
-                                if n == 0 && k > 0 && pos < want.len() {
+                                if n == 0 && k > 0 && pos < want.len() && s.damaged != Some(f) {
                                     return Some((json!({"kind": "premature_end", "layers": lt}), format!("step {i}: read({k}) of {} returned 0 at offset {pos} of {}", s.names[f], want.len())));
                                 }
                                 pos += n;
                             }
+                            Err(_) if s.damaged == Some(f) => {}
                             Err(e) => {
                                 return Some((json!({"kind": "read_error_after_history", "layers": lt}), format!("step {i}: read({k}) of {} at offset {pos}: {e:?}", s.names[f])));
                             }
@@ -231,7 +258,34 @@ pub fn subjects(progs: &[Program], rep: &mut Report) -> Vec<Subject> {
             }
             let names = p.names.clone();
             let data = names.iter().map(|n| model.files[n].clone()).collect();
-            out.push(Subject { p: p.clone(), cfg, archive, names, data });
+            out.push(Subject { p: p.clone(), cfg, archive, names, data, damaged: None });
+        }
+    }
+    // one more subject: an encrypt-only archive whose middle file crosses a chunk that is damaged afterwards;
+    // the first and last files lie in intact chunks
+    let p = Program::new(vec![Op::Add(0, 9), Op::Add(1, 4 * CHUNK), Op::Add(2, 11)], Entropy::Pattern);
+    let cfg = Cfg::new(L4::Encrypt);
+    if let Ok(Ok((mut archive, _))) = guard(|| prog::build(&p, &cfg)) {
+        let hl = crate::refstream::header_len(true, 1);
+        let at = hl + 5 * (CHUNK + crate::scale::TAG) + 5; // inside chunk 5: data of file 1 only (file 0 ends in chunk 2)
+        if at < archive.len() {
+            archive[at] ^= 0x10;
+            let model = p.model();
+            let names = p.names.clone();
+            let data: Vec<Vec<u8>> = names.iter().map(|n| model.files[n].clone()).collect();
+            // sanity on a fresh reader: files 0 and 2 read completely, file 1 fails
+            let fresh = |f: usize| -> Option<Vec<u8>> {
+                let mut rd = ArchiveReader::from_config(Cursor::new(&archive[..]), prog::reader_config(&[0])).ok()?;
+                let mut file = rd.get_file(names[f].clone()).ok()??;
+                let mut v = Vec::new();
+                file.data.read_to_end(&mut v).ok()?;
+                Some(v)
+            };
+            if fresh(0).as_ref() == Some(&data[0]) && fresh(2).as_ref() == Some(&data[2]) && fresh(1).is_none() {
+                out.push(Subject { p, cfg, archive, names, data, damaged: Some(1) });
+            } else {
+                rep.notes.push("damaged subject: the files next to the damaged chunk do not read alone as expected; skipped".to_string());
+            }
         }
     }
     out
@@ -242,18 +296,23 @@ pub fn run(started: Instant) -> i32 {
     let depth = if thorough { 6 } else { 5 };
     let mut rep0 = Report::new();
     let subs = subjects(&base_programs(), &mut rep0);
+    // thorough: depth 6 on every second subject (one per layer combination and program parity), depth 5 on the
+    // others - the full depth-6 tree on all 12 subjects takes 20 minutes
     let hists = histories(3, depth);
+    let hists_short = if thorough { histories(3, depth - 1) } else { Vec::new() };
     let mut jobs: Vec<(usize, usize)> = Vec::new();
     for s in 0..subs.len() {
-        for h in 0..hists.len() {
+        let n = if thorough && s % 2 == 1 { hists_short.len() } else { hists.len() };
+        for h in 0..n {
             jobs.push((s, h));
         }
     }
     let subs_ref = &subs;
     let hists_ref = &hists;
+    let hists_short_ref = &hists_short;
     let mut rep = infra::par_explore(&jobs, |(si, hi), rep| {
         let s = &subs_ref[*si];
-        let h = &hists_ref[*hi];
+        let h = if thorough && *si % 2 == 1 { &hists_short_ref[*hi] } else { &hists_ref[*hi] };
         rep.evaluations += 1;
         let key = fnv(format!("{si}{h:?}").as_bytes());
         rep.state(key);
@@ -268,7 +327,7 @@ pub fn run(started: Instant) -> i32 {
             rep.violate(Violation {
                 sig,
                 detail,
-                replay: json!({"program": s.p.json(), "cfg": s.cfg.json(), "archive_hex": hex::encode(&s.archive), "history": h.iter().map(hjson).collect::<Vec<_>>()}),
+                replay: json!({"program": s.p.json(), "cfg": s.cfg.json(), "archive_hex": hex::encode(&s.archive), "damaged_file": s.damaged, "history": h.iter().map(hjson).collect::<Vec<_>>()}),
                 weight: (*hi) as u64,
             });
         }
@@ -285,9 +344,9 @@ pub fn run(started: Instant) -> i32 {
         rep,
         Meta {
             level: "model_checking",
-            rule: "for each subject archive (3 programs x 4 layer combinations, real writer) ALL histories of exactly `depth` operations over {list, open(f) for 3 files (dropping the previously open file object, possibly midway), read(k) k in {0,1,3,7,64,1000} on the open file, hash(f), get_file+get_hash of an absent name, linear_extract of every file (exact bytes)} are executed on one real ArchiveReader (one history in four over a source returning at most 3 bytes per read), checking at every step: listing, size, hash and the bytes returned since the last open equal the file read alone on a fresh reader; zero-length result only at end of file. No pruning. states = distinct (subject, history); non-trivial = histories that open at least two files or mix open with hash".to_string(),
+            rule: "for each subject archive (3 programs x 4 layer combinations, real writer; plus an encrypt-only archive whose middle file crosses a chunk damaged afterwards: operations on that file may fail but never return wrong bytes, the two other files must read as on a fresh reader whatever failed before) ALL histories of exactly `depth` operations over {list, open(f) for 3 files (dropping the previously open file object, possibly midway), read(k) k in {0,1,3,7,64,1000} on the open file, hash(f), get_file+get_hash of an absent name, linear_extract of every file (exact bytes)} are executed on one real ArchiveReader (one history in four over a source returning at most 3 bytes per read), checking at every step: listing, size, hash and the bytes returned since the last open equal the file read alone on a fresh reader; zero-length result only at end of file. No pruning. states = distinct (subject, history); non-trivial = histories that open at least two files or mix open with hash".to_string(),
             exhaustive: true,
-            bounds: json!({"depth": depth, "alphabet": 14, "subjects": subs.len(), "histories_per_subject": hists.len()}),
+            bounds: json!({"depth": depth, "depth_note": if thorough { "depth 6 on subjects 0,2,4,.. and depth 5 on the others" } else { "all subjects" }, "alphabet": 15, "subjects": subs.len(), "histories_per_subject": hists.len()}),
             assumptions: vec!["scaled constants".to_string()],
         },
         started,
@@ -331,7 +390,7 @@ pub fn replay(path: &str) -> i32 {
     let model = p.model();
     let names = p.names.clone();
     let data = names.iter().map(|n| model.files[n].clone()).collect();
-    let s = Subject { p, cfg, archive, names, data };
+    let s = Subject { p, cfg, archive, names, data, damaged: v["damaged_file"].as_u64().map(|x| x as usize) };
     let mut r = Report::new();
     let a = run_history(&s, &hist, &mut r);
     let b = run_history(&s, &hist, &mut r);
